@@ -1462,12 +1462,33 @@ package serf
 //@ }
 //@ pure func snapMemory(s *Snapshotter, k string) bool { return mapHas(s.aliveNodes, k) }
 
+// removing and renaming files (C11): logged library calls; a failure counts as a library failure like any other
+//@ import "os"
+//@ pure func osImported() error { return os.ErrNotExist }
+//@ func os.Remove(name string) (err error)
+//@   trusted
+//@   logcalls osremove
+//@   assigns LibFailN:Int
+//@   ensures failure_counted: libFailN() == old(libFailN())+ite(err != nil, 1, 0)
+//@ end
+//@ func os.Rename(oldpath string, newpath string) (err error)
+//@   trusted
+//@   logcalls osrename
+//@   assigns LibFailN:Int
+//@   ensures failure_counted: libFailN() == old(libFailN())+ite(err != nil, 1, 0)
+//@ end
 //@ func (s *Snapshotter) compact() (err error)
 //@   requires wf: wfSnap(s)
 //@   # the snapshot may be rewritten from memory in here: what a leave made the recorder forget must be forgotten by now
 //@   requires left_means_forgotten [C13]: leaveRemembered(s)
 //@   ensures leave_state_untouched [C13]: s.leaving == old(s.leaving) && s.rejoinAfterLeave == old(s.rejoinAfterLeave) && leaveRemembered(s)
 //@   ensures handles_never_nil [C12]: wfSnap(s)
+//@   # the snapshot file is never deleted: the compacted file replaces it by one rename, so that at every step -- and
+//@   # after a crash at any step -- the old or the new snapshot is there under the snapshot path
+//@   oldlet rm0 := callNOf("osremove")
+//@   oldlet rn0 := callNOf("osrename")
+//@   ensures snapshot_file_never_deleted [C11]: callNOf("osremove") == rm0
+//@   ensures replaced_by_one_rename [C11]: callNOf("osrename") <= rn0+1 && (err == nil ==> callNOf("osrename") == rn0+1 && callRetOf("osrename", rn0))
 //@   # recording resumes once the fault has cleared: a compaction during which no file operation fails for reasons of its
 //@   # own succeeds and leaves an open file behind, whatever state an earlier failure left the handles in (closing the
 //@   # old, possibly already closed, handle is not allowed to stop it)
@@ -1475,6 +1496,7 @@ package serf
 //@   ensures memory_untouched [C12]: s.lastClock == old(s.lastClock) && s.lastEventClock == old(s.lastEventClock) && s.lastQueryClock == old(s.lastQueryClock) &&
 //@       same(s.aliveNodes, old(s.aliveNodes)) && forall(func(k string) bool { return snapMemory(s, k) == old(snapMemory(s, k)) && mapAt(s.aliveNodes, k) == old(mapAt(s.aliveNodes, k)) })
 //@   loop 1 invariant handles [C12]: wfSnap(s) && libFailN() >= old(libFailN())
+//@   loop 1 invariant no_file_removed_or_renamed_yet [C11]: callNOf("osremove") == rm0 && callNOf("osrename") == rn0
 //@ end
 //@ func (s *Snapshotter) appendLine(l string) (err error)
 //@   requires wf: wfSnap(s)
